@@ -14,16 +14,6 @@ theorem getD_map_range' (f : Nat → Rat) (n j : Nat) : ((List.range n).map f).g
   · rename_i h
     rw [List.getD_eq_getElem?_getD, List.getElem?_eq_none (by simp; omega)]; rfl
 
-theorem anti_le_of {S : Nat → Nat → Rat} (hanti : ∀ n j, j + 1 < n → S n (j + 1) ≤ S n j) {n i r : Nat}
-    (hir : i ≤ r) (hr : r < n) : S n r ≤ S n i := by
-  induction r with
-  | zero => have : i = 0 := by omega
-            subst this; exact le_refl _
-  | succ r ih =>
-    rcases Nat.eq_or_lt_of_le hir with rfl | hlt
-    · exact le_refl _
-    · exact le_trans (hanti n r hr) (ih (by omega) (by omega))
-
 /-- score sequences that do not depend on the number of places (up to `N` places) -/
 theorem mono_of_prefix (S : Nat → Nat → Rat) (g : Nat → Rat) (N : Nat)
     (h1 : ∀ n j, n ≤ N → j < n → S n j = g j)
